@@ -41,6 +41,16 @@ def collect(ctx, tuples, cases, results, module, describe, finding=None):
     """Turn REJECT tuples into violations (prop) / drift (abs).  `finding(case, res, expected)` may
     return a known-finding id."""
     nviol = 0
+    listed = {f["id"] for f in core.load_findings(ctx.prop)[0]}
+    for t in tuples.get("KNOWN", []):
+        _, tid, fid, expected = t[:4]
+        if fid in listed:
+            ctx.known(fid)
+        else:       # the signature matches but the finding is not (or no longer) listed: a violation
+            case, res = cases[tid], results[tid]
+            ctx.violation(describe(case), "matches the signature of finding %s, which known_findings.json does not list" % fid,
+                          expected=expected, observed={"out": res["out"], "exc": res.get("exc")},
+                          extra={"full_case": {k: v for k, v in case.items() if not k.startswith("_")}})
     for t in tuples.get("REJECT", []):
         _, tid, kind, verdict, expected = t[:5]
         case, res = cases[tid], results[tid]
